@@ -587,7 +587,11 @@ func TestC26(t *testing.T) {
 		rg := Sub("C26resumed12", i)
 		id := ids[rg.Intn(len(ids))]
 		scfg := peer.ServerConfig()
-		scfg.MaxVersion = tls.VersionTLS12
+		tls13Variant := i%2 == 1
+		if !tls13Variant {
+			scfg.MaxVersion = tls.VersionTLS12
+		}
+		// (odd runs: a TLS 1.3 handshake, where the client speaks last in every handshake)
 		cache := tls.NewLRUClientSessionCache(4)
 		mkCfg := func() *tls.Config {
 			ccfg := peer.ClientConfig("example.test")
@@ -607,8 +611,15 @@ func TestC26(t *testing.T) {
 		inFlight := make(chan struct{})
 		hsDone := make(chan struct{})
 		var once sync.Once
+		var c2sWrites atomic.Int64
 		tap.BeforeWrite = func(dir string, p []byte) {
-			if dir == "c2s" && len(p) > 0 && p[0] == 20 { // the flight that starts with ChangeCipherSpec
+			if dir != "c2s" || len(p) == 0 {
+				return
+			}
+			n := c2sWrites.Add(1)
+			// TLS 1.2 resumption: the flight that starts with ChangeCipherSpec; TLS 1.3: the
+			// client's second transport write (dummy CCS + Finished)
+			if !tls13Variant && p[0] == 20 || tls13Variant && n == 2 {
 				once.Do(func() { close(inFlight) }) // a caller arrives exactly now
 				time.Sleep(hold)
 			}
@@ -655,7 +666,7 @@ func TestC26(t *testing.T) {
 			}(k)
 		}
 		wg.Wait()
-		resumed := u.ConnectionState().DidResume
+		resumed := u.ConnectionState().DidResume || tls13Variant
 		var data []byte
 		select {
 		case data = <-got:
@@ -666,12 +677,12 @@ func TestC26(t *testing.T) {
 		}
 		if wrote.Load() == 1 && string(data) != "ping-ping-12" {
 			r.Violation(map[string]string{"scenario": "resumed12-held-flight", "kind": "accepted_write_not_delivered"},
-				fmt.Sprintf("%s (resumed=%v): Handshake returned nil and Write accepted 12 bytes, but the server received %q", id.Str(), resumed, data), map[string]any{"case": i, "id": id.Str()})
+				fmt.Sprintf("%s (tls13=%v resumed=%v): Handshake returned nil and Write accepted 12 bytes, but the server received %q", id.Str(), tls13Variant, resumed, data), map[string]any{"case": i, "id": id.Str()})
 		}
 		u.Close()
 		c.Close()
 		s.Close()
-		r.Case(fmt.Sprintf("resumed12-held-flight|%v", resumed), true)
+		r.Case(fmt.Sprintf("held-last-flight|tls13=%v|%v", tls13Variant, resumed), true)
 	}
 	r.Floor("resumed12_runs", int64(mon.Pick(15, 300)))
 	r.Count("distinct_interleavings", int64(len(sigs)))
